@@ -95,6 +95,7 @@ class GenOpts:
     want_multiclient: bool = False  # force one interface suitable as multi-client port
     nested_enum: float = 0.5
     multi_id_names: float = 0.0     # declaration names with 2 identifiers (parser only)
+    name_families: float = 0.15     # names that extend/truncate existing names textually
     mc_decoys: str = 'random'       # random | both | literal: decoy events called Claim/Release
 
 
@@ -136,6 +137,18 @@ class ModelGen:
             cand = rng.choice(self.simple_names)
             if cand not in node.taken:
                 node.taken.add(cand)
+                return cand
+        if self.simple_names and rng.random() < self.o.name_families:
+            # a name that textually extends or truncates an existing one (Hal / HalSim, Dev /
+            # Device): lookups that compare joined strings instead of identifiers confuse them
+            base = rng.choice(self.simple_names)
+            cand = rng.choice([base + rng.choice(['x', 'Sim', '2', '_a', 'ice']),
+                               base[:max(1, len(base) - rng.randint(1, 2))]])
+            if cand not in node.taken and cand not in CPP_KEYWORDS and cand not in RESERVED \
+                    and '__' not in cand and cand != '_' and \
+                    not (cand.startswith('_') and len(cand) > 1 and cand[1].isupper()):
+                node.taken.add(cand)
+                self.simple_names.append(cand)
                 return cand
         s = fresh(rng, node.taken, style)
         self.simple_names.append(s)
@@ -188,15 +201,16 @@ class ModelGen:
         self.externs.append(ent)
         return ent
 
-    def _enum_fields(self) -> List[str]:
-        taken: set = set()
+    def _enum_fields(self, owner: str = '') -> List[str]:
+        # an enumerator may not be named like the struct that wraps the enum in C++
+        taken: set = {owner, 'type'}
         return [fresh(self.rng, taken, self.rng.choice(['camel', 'single', 'digit']))
                 for _ in range(self.rng.randint(1, 4))]
 
     def add_enum(self, node: Optional[NsNode] = None) -> Tuple[List[str], M.Enum]:
         node = node or self._pick_node()
         name = self._name(node, 'camel')
-        e = M.Enum([name], self._enum_fields())
+        e = M.Enum([name], self._enum_fields(name))
         self._place(node, e)
         ent = (node.fqn + [name], e)
         self.enums.append(ent)
@@ -218,17 +232,18 @@ class ModelGen:
         name = self._name(node, 'camel')
         itf = M.Interface([name])
         fqn = node.fqn + [name]
-        inner_taken: set = set()
+        inner_taken: set = {name}   # a member type may not be named like its class in C++
         if rng.random() < o.nested_enum:
             for _ in range(rng.randint(1, 2)):
                 en = fresh(rng, inner_taken, 'camel')
                 # reuse a namespace-level enum's simple name now and then
-                if self.enums and rng.random() < o.reuse_names:
-                    cand = rng.choice(self.enums)[0][-1]
+                pool = self.enums + self.externs
+                if pool and rng.random() < max(o.reuse_names, 0.25):
+                    cand = rng.choice(pool)[0][-1]
                     if cand not in inner_taken:
                         inner_taken.add(cand)
                         en = cand
-                e = M.Enum([en], self._enum_fields())
+                e = M.Enum([en], self._enum_fields(en))
                 itf.types.append(e)
                 self.enums.append((fqn + [en], e))
         if rng.random() < 0.2:
@@ -253,8 +268,8 @@ class ModelGen:
         fqn = node.fqn + [name]
         nested = rng.random() < 0.5
         if nested or not [e for e in self.enums if self._enum_visible(e[0], fqn)]:
-            en = fresh(rng, set(), 'camel')
-            enum = M.Enum([en], self._enum_fields() + [fresh(rng, set(), 'camel') + 'Z'])
+            en = fresh(rng, {name}, 'camel')
+            enum = M.Enum([en], self._enum_fields(en) + [fresh(rng, {en}, 'camel') + 'Z'])
             enum.fields = list(dict.fromkeys(enum.fields))
             itf.types.append(enum)
             enum_fqn = fqn + [en]
@@ -299,11 +314,25 @@ class ModelGen:
             if rng.random() < 0.5 or self.o.mc_decoys == 'both':
                 events.append(M.Event('Release', 'in', M.Ref(['void']), formals('in')))
                 taken.add('Release')
+        sub_replies = []
+        if rng.random() < 0.5:
+            sn = fresh(rng, taken | {name}, 'camel')
+            sub = M.SubInt([sn], 0, rng.randint(1, 9))
+            itf.types.append(sub)
+            self.subints.append((fqn + [sn], sub))
+            taken.add(sn)
+        for sfqn, _sub in self.subints:
+            if self._enum_visible(sfqn, fqn):
+                ref = self._ref(fqn, sfqn, 'subints')
+                if ref is not None:
+                    sub_replies.append(ref)
         for _ in range(rng.randint(0, 3)):
+            choices = [M.Ref(['void']), M.Ref(['bool']), M.Ref(list(reply.ids), reply.target)]
+            if sub_replies:
+                pick = rng.choice(sub_replies)
+                choices.append(M.Ref(list(pick.ids), pick.target))
             events.append(M.Event(fresh(rng, taken, rng.choice(['camel', 'snake', 'single'])), 'in',
-                                  rng.choice([M.Ref(['void']), M.Ref(['bool']),
-                                              M.Ref(list(reply.ids), reply.target)]),
-                                  formals('in')))
+                                  rng.choice(choices), formals('in')))
         for _ in range(rng.randint(2, 4)):
             events.append(M.Event(fresh(rng, taken, rng.choice(['camel', 'snake', 'single'])), 'out',
                                   M.Ref(['void']), formals('out')))
@@ -374,7 +403,8 @@ class ModelGen:
             node = self.root if rng.random() < o.global_component else self._pick_node(False)
         name = self._name(node, 'camel')
         ports: List[M.Port] = []
-        ptaken: set = set()
+        # C++: a data member may not be named like its class (mock component struct)
+        ptaken: set = {name[0].upper() + name[1:], name[0].lower() + name[1:]}
         spec = [('provides', False, self._rint(o.n_provides) if n_provides is None else n_provides),
                 ('requires', False, self._rint(o.n_requires) if n_requires is None else n_requires),
                 ('requires', True, self._rint(o.n_injected) if n_injected is None else n_injected)]
